@@ -116,6 +116,13 @@ class Check(PropertyCheck):
                     x0 = -rng.choice([0, 0, 1, 2]); y0 = -rng.choice([0, 0, 1, 3])
                     w = nx - x0 + rng.choice([0, 0, 1, 2]); h = ny - y0 + rng.choice([0, 0, 2])
                 cases.append(mk([x0, x0 + w, y0, y0 + h], (ny, nx), rng.choice(ops)))
+        # the box lies strictly INSIDE a larger image (the cutout is then a view of the image: nothing may be written
+        # through it), weights with zeros, images full of non-finite pixels
+        for _ in range(80 if tier == 'quick' else 3000):
+            ny, nx = rng.randint(3, 7), rng.randint(3, 7)
+            w, h = rng.randint(1, nx - 1), rng.randint(1, ny - 1)
+            x0, y0 = rng.randint(0, nx - w), rng.randint(0, ny - h)
+            cases.append(mk([x0, x0 + w, y0, y0 + h], (ny, nx), rng.choice(['multiply', 'multiply', 'cutout', 'get_values'])))
         # far away / huge offsets
         for _ in range(100 if tier == 'quick' else 5000):
             ny, nx = rng.randint(1, 5), rng.randint(1, 5)
